@@ -1,6 +1,7 @@
 import Kaira.Proto
 import Kaira.BinChan
 import Kaira.Additive
+import Kaira.Constraint
 namespace Kaira.Verbs
 open Kaira Kaira.Proto Kaira.BinChan Kaira.Additive
 
@@ -49,6 +50,23 @@ def canalog (toks : List String) : Option String :=
   | ["fade", h, x, n] => do
     let h ← clist? h; let x ← clist? x; let n ← clist? n
     some (showC (fadeGiven h x n))
+  | _ => none
+
+/-- C08 verbs: output powers / clamped samples -/
+def cconstraint (toks : List String) : Option String :=
+  match toks with
+  | ["cpow", "total", p, xs] => do
+    let p ← rat? p; let xs ← ratList? xs
+    some (showRat (Constraint.totalPower p xs))
+  | ["cpow", "avg", p, n, xs] => do
+    let p ← rat? p; let n ← n.toNat?; let xs ← ratList? xs
+    some (showRat (Constraint.averagePower p n xs))
+  | ["cant", t, cs] => do
+    let t ← rat? t; let cs ← ratList? cs
+    some (showRats (cs.map (Constraint.antennaPower t)))
+  | ["cclamp", a, xs] => do
+    let a ← rat? a; let xs ← ratList? xs
+    some (showRats (xs.map (Constraint.clamp a)))
   | _ => none
 
 end Kaira.Verbs
